@@ -204,7 +204,7 @@ func sliceSources(v ssa.Value, seen map[ssa.Value]bool, elems *[]ssa.Value, appe
 
 func runC20(c *Ctx) {
 	p, r := c.P, c.R
-	r.Explanation = "Decides that Broker.Reopen reaches every node and carries every failure: the per-graph reopen is applied to every value of the whole graphs map (directly or through a snapshot slice filled by a full range over the map), the per-graph reopen ranges the roots with a callback that always continues and starts the per-node walk at each pipeline's root, the per-node step invokes Reopen on the node and then visits every successor (loops whose only exits are exhaustion or an error return); and no error on the chain Node.Reopen -> doReopen -> reopen -> Broker.Reopen is dropped or replaced, with the all-nil path returning nil. sync.Map.Range visiting every key is trusted (A4). Every nil return of Broker.Reopen walked all graphs; errors merged into a variable that is later overwritten are reported path-sensitively. Also: every successful return of the per-node step lies behind the successor loop, and no error of foreign origin is handed to multierror.Append unwrapped (it flattens, and an empty *multierror.Error vanishes). C20.commit: registrations store the chain linked from the currently registered nodes. C20.carry (strict): an error returned only under a condition other than its nil test counts as dropped."
+	r.Explanation = "Decides that Broker.Reopen reaches every node and carries every failure: the per-graph reopen is applied to every value of the whole graphs map (directly or through a snapshot slice filled by a full range over the map), the per-graph reopen ranges the roots with a callback that always continues and starts the per-node walk at each pipeline's root, the per-node step invokes Reopen on the node and then visits every successor (loops whose only exits are exhaustion or an error return); and no error on the chain Node.Reopen -> doReopen -> reopen -> Broker.Reopen is dropped or replaced, with the all-nil path returning nil. sync.Map.Range visiting every key is trusted (A4). Every nil return of Broker.Reopen walked all graphs; errors merged into a variable that is later overwritten are reported path-sensitively. Also: every successful return of the per-node step lies behind the successor loop, and no error of foreign origin is handed to multierror.Append unwrapped (it flattens, and an empty *multierror.Error vanishes). C20.commit: registrations store the chain linked from the currently registered nodes. C20.carry (strict): an error returned only under a condition other than its nil test counts as dropped. C20.all also: graphMap.Range is sync.Map.Range."
 	r.NotDecided = []string{"sync.Map.Range visiting every key (A4)", "behaviour of the nodes' own Reopen"}
 	c.errControls()
 	c.errStrict = true // "carries that failure"
@@ -418,6 +418,10 @@ func runC20(c *Ctx) {
 		c.accumulateRule("C20.carry", graphReopen)
 	}
 	c.ruleNoFlatten("C20.carry")
+	// "every currently registered pipeline": the Range that reopen walks offers every stored pipeline
+	// exactly once while pipelines are stored and deleted concurrently (Reopen walks without the Broker
+	// lock, and a node's Reopen may call back into the Broker): it IS sync.Map.Range
+	c.ruleGraphMap("C20.all", "")
 	// "every node of every currently registered pipeline": the chain stored at registration links
 	// every listed node (a chain cut short is never walked by Reopen either)
 	c.ruleLink("C20.link")
